@@ -141,6 +141,32 @@ fn random_record_filters(src: &mut Src, obs: &mut Obs) -> Res {
     check(src, &q, &doc, 5, &SpellCfg { escapes: false }, obs)
 }
 
+/// a record projection as a program writes it: one bracketed selection of 2-33 names (present and absent ones,
+/// repeated ones), on one record, on every record of a list, below `..` and inside a filter - in all spellings
+fn random_projections(src: &mut Src, obs: &mut Obs) -> Res {
+    let names = ["id", "name", "email", "phone", "street", "city", "zip", "country", "created", "updated", "first name", "a-b", "k.1", "é", "tags", "x"];
+    let rec = |src: &mut Src, i: usize| -> J {
+        let mut m: Vec<(String, J)> = vec![];
+        for nm in names.iter() {
+            if !src.chance(1, 4) {
+                m.push((nm.to_string(), if src.chance(1, 6) { J::Arr(vec![J::Int(i as i64)]) } else { J::Int(i as i64) }));
+            }
+        }
+        J::Obj(m).sorted()
+    };
+    let doc = J::Obj(vec![("user".to_string(), rec(src, 0)), ("users".to_string(), J::Arr((1..1 + src.below(4)).map(|i| rec(src, i)).collect()))]).sorted();
+    let k = *src.pick(&[2usize, 3, 7, 8, 9, 12, 16, 17, 33]);
+    let sel: Vec<String> = (0..k).map(|_| if src.chance(1, 10) { "'missing'".to_string() } else { format!("'{}'", src.pick(&names)) }).collect();
+    let head = *src.pick(&["$.user", "$.user", "$.users[*]", "$.users[0]", "$..", "$.users[?@"]);
+    let text = if head.ends_with('@') { format!("{}[{}]]", head, sel.join(",")) } else if head == "$.." { format!("$..[{}]", sel.join(",")) } else { format!("{}[{}]", head, sel.join(",")) };
+    let q = match crate::recog::parse_ast(&text) {
+        Some(q) => q,
+        None => return Err(Failure::new("harness inconsistency: the projection family produced a query outside the recogniser's language", json!({"query": text}))),
+    };
+    obs.label("projection");
+    check(src, &q, &doc, 5, &SpellCfg { escapes: false }, obs)
+}
+
 /// numbers: integer / float / exponent spellings compare alike, on both sides of every operator
 fn random_numbers(src: &mut Src, obs: &mut Obs) -> Res {
     let vals = [0i64, 1, -1, 10, 100, -100, 7, 1000, 120, 5];
@@ -212,6 +238,7 @@ pub fn prop() -> Prop {
             Sub { name: "random-spellings", kind: Kind::Random { f: random_spellings, quick: 60_000, thorough: 1_200_000, len: 700 } },
             Sub { name: "random-spellings-escapes", kind: Kind::Random { f: random_spellings_escapes, quick: 30_000, thorough: 600_000, len: 700 } },
             Sub { name: "random-numbers", kind: Kind::Random { f: random_numbers, quick: 30_000, thorough: 600_000, len: 200 } },
+            Sub { name: "random-projections", kind: Kind::Random { f: random_projections, quick: 20_000, thorough: 400_000, len: 700 } },
             Sub { name: "random-record-filters", kind: Kind::Random { f: random_record_filters, quick: 12_000, thorough: 240_000, len: 700 } },
         ],
         direct: Some(direct),
